@@ -116,6 +116,14 @@ Arith(op, x, y) ==
    from "wrong operation" on the small dyadic value pools used; it is not an accuracy claim. *)
 Scale == 1000
 Tol   == 2
-CloseNum(o, x) == /\ o.f = "ok"
-                  /\ Abs(o.s * x.d - x.n * Scale) <= Tol * x.d
+\* expected value on the observation grid; every product stays inside TLC's 32-bit integers
+\* whatever the job logged (an observed value may be garbage of any magnitude)
+Huge == 2000000
+ExpScaled(x) == IF Abs(x.n) <= Huge THEN (x.n * Scale) \div x.d
+                ELSE IF Abs(x.n \div x.d) <= Huge THEN (x.n \div x.d) * Scale
+                ELSE IF x.n > 0 THEN Huge * Scale ELSE -(Huge * Scale)
+CloseNum(o, x) ==
+  IF o.f = "big" THEN Abs(x.n \div x.d) >= Huge          \* logged as beyond +-2*10^6: only right if expected so
+  ELSE /\ o.f = "ok"
+       /\ Abs(o.s - ExpScaled(x)) <= Tol + 1
 =============================================================================
